@@ -10,7 +10,7 @@ want = set(sys.argv[1:])
 res_path = '/verif/mutants/results.json'
 results = json.load(open(res_path)) if os.path.exists(res_path) else {}
 def sh(cmd, cwd=None, timeout=1800):
-    p = subprocess.run(cmd, shell=True, cwd=cwd, env=ENV, capture_output=True, text=True, timeout=timeout)
+    p = subprocess.run(cmd, shell=True, cwd=cwd, env=ENV, capture_output=True, text=True, errors='replace', timeout=timeout)
     return p.returncode, p.stdout + p.stderr
 for mu in M:
     if want and mu['prop'] not in want and mu['name'] not in want:
